@@ -262,6 +262,12 @@ def main():
     for text, _expect, _label in c06.SCOPES:
         todo.append(([], text, False))
     stats['scope_texts'] = len(c06.SCOPES)
+    # texts that define a name twice (C06 says they are rejected): whatever the compiler accepts
+    # of them must still be an image in which every call leads to the routine the source names
+    for label, text in c06.RULES:
+        if label.startswith('redefine'):
+            todo.append(([], text, False))
+            stats['redefinition_texts'] = stats.get('redefinition_texts', 0) + 1
     for prog, text, must_accept in todo:
         parser = Parser()
         chk.count()
@@ -300,6 +306,19 @@ def main():
         if bad is not None:
             chk.violation('control-transfer-wrong', bad, {'script': text,
                           'image': [str(x) for x in code]})
+        # oracle 1b: a call is bound by name when the image is loaded, but the source binds it to
+        # the definition in force where the call is written; the two agree only if no name has
+        # two routines (two definitions, or a definition with the name of a built-in function)
+        seen = set(progs.BUILTIN_PARAMS)
+        for x in program:
+            if x.op_code is OpCode.ROUTINE:
+                if x.param0 in seen:
+                    chk.violation('call-target-ambiguous',
+                                  'the image holds two routines called "{}": calls written before the '
+                                  'second definition are led into it'.format(x.param0),
+                                  {'script': text, 'image': [str(y) for y in code]})
+                    bad = bad or 'two routines called ' + str(x.param0)
+                seen.add(x.param0)
         # oracle 2: loading preserves where every branch leads
         bad = target_preservation(program, code)
         if bad is not None:
